@@ -232,6 +232,10 @@ def gen_pass_rule(rng, stage, values, direction="noback", allow_lookback=True, r
         items.append(("look", lb))
     ng = rng.range(1, 3)
     groups = [[rng.choice(values) for _ in range(rng.range(1, 2))] for _ in range(ng)]
+    if lb and rng.chance(0.4):
+        # the look-back covers the first literal exactly: the rule is then chained by the NEXT literal (passFindCharacters)
+        ng = max(ng, 2)
+        groups = [[rng.choice(values) for _ in range(lb)]] + [[rng.choice(values) for _ in range(rng.range(1, 2))] for _ in range(ng - 1)]
     br = rng.chance(0.6)
     i = j = 0
     if br:
@@ -280,9 +284,17 @@ def gen_c06_table(rng, risky=False, directions=("noback",)):
     for stage in ("correct", "pass2", "pass3", "pass4"):
         vals = letters if stage == "correct" else cellvals
         extra = [32] if stage == "correct" else [0x8000, 0x8000 | 63]
+        stage_rules = []
         for _ in range(rng.choice([0, 0, 1, 2, 3])):
             r = gen_pass_rule(rng, stage, vals if rng.chance(0.8) else vals + extra, direction=rng.choice(list(directions)), risky=risky)
-            rules.append(r)
+            stage_rules.append(r)
+        # a competitor defined later whose literal is the literal another rule of the stage is chained by, or a prefix of it
+        lits = [it[1] for r in stage_rules for it in r.items if isinstance(it, tuple) and it[0] == "lit"]
+        if lits and rng.chance(0.4):
+            lit = rng.choice(lits)
+            lit = lit[:rng.range(1, len(lit))]
+            stage_rules.append(PassRule(stage, [("lit", list(lit))], ("lit", [rng.choice(vals)]), rng.choice(list(directions))))
+        rules += stage_rules
     rng.shuffle(rules)
     return entries, rules, letters
 
